@@ -75,6 +75,10 @@ func envChooseSetup(distinctKeys bool) *envSetup {
 				gc.KeypairIndexes = append(gc.KeypairIndexes, uint32(k))
 			}
 		}
+		// an index list may name a recipient more than once (accepted input: it is not a set)
+		if len(gc.KeypairIndexes) > 0 && (g == 0 || rt.Tier() > 0) && rt.Choose("repeatIndex", 2) == 1 {
+			gc.KeypairIndexes = append(gc.KeypairIndexes, gc.KeypairIndexes[0])
+		}
 		s.cfg.GrantConfigs = append(s.cfg.GrantConfigs, gc)
 	}
 	if rt.Tier() > 0 {
